@@ -80,6 +80,9 @@ class HistGen:
                 tags.insert(0, [b'd'])
         for _ in range(rng.choice([0, 0, 1, 1, 2, 3])):
             name = rng.choice([b't', b't', b'e', b'p', b'a', b'tt', b'', b'T'])
+            if rng.random() < (0.2 if self.focus in ('C17', 'C18', 'C05') else 0.06):
+                # one-byte names that are not letters: indexed and de-indexed like letters (or not at all) - never one without the other
+                name = rng.choice([b'1', b'9', b'_', b'-', b'#', b'\x00', b'@', b'[', b'`', b'{'])
             vals = [b'a', b'b', b'ab', b'', b'a\x00', b'v' * 182, b'v' * 183, b'v' * 182 + b'w', AUTHORS[0].hex().encode(), AUTHORS[1].hex().encode()]
             n = rng.choice([0, 1, 1, 1, 2, 3])
             tags.append([name] + [rng.choice(vals) for _ in range(n)])
@@ -232,6 +235,19 @@ class HistGen:
             self.episode = [{'op': 'store', 'ev': dl}, {'op': 'store', 'ev': e2}, mid, {'op': 'store', 'ev': d2},
                             {'op': 'store', 'ev': e1}, {'op': 'store', 'ev': e3}]
             return {'op': 'store', 'ev': e1}
+        if f in ('C17', 'C18', 'C05') and rng.random() < 0.07:
+            # an event whose tag name is one byte but not a letter, then removed by one of the four paths
+            pk = rng.choice(AUTHORS)
+            kind = rng.choice([1, 1, 10002, 30023])
+            name = rng.choice([b'1', b'9', b'0', b'_', b'-', b'@', b'['])
+            tg = [[name, rng.choice([b'x', b'', b'v' * 183])], [b't', b'a']] + ([[b'd', b'nl']] if kind == 30023 else [])
+            e = self.new_event(kind=kind, pk=pk, t=1000, tags=tg, content=b'nl')
+            ways = [{'op': 'remove', 'id': e['id']}, {'op': 'vanish', 'pk': pk},
+                    {'op': 'store', 'ev': self.new_event(kind=5, pk=pk, t=2000, tags=[[b'e', e['id'].hex().encode()]], content=b'')}]
+            if kind != 1:
+                ways.append({'op': 'store', 'ev': self.new_event(kind=kind, pk=pk, t=1500, tags=[[b'd', b'nl']] if kind == 30023 else [], content=b'v2')})
+            self.episode = [rng.choice(ways)]
+            return {'op': 'store', 'ev': e}
         if op == 'fit':
             # an event that ends exactly at a multiple of the map's growth chunk (2048 bytes in a debug build): the map
             # is completely full afterwards — or one byte short / one byte over
@@ -281,6 +297,20 @@ def self_filters(ev):
            dict(base, since=ev['t'], until=ev['t']), dict(base, authors=[ev['pk']], since=ev['t'])]
     for t in ev['tags']:
         if len(t) >= 2 and len(t[0]) == 1 and (65 <= t[0][0] <= 90 or 97 <= t[0][0] <= 122):
+            c = [t[0], t[1]]
+            out.append(dict(base, tags=[c]))
+            out.append(dict(base, tags=[c], authors=[ev['pk']]))
+            out.append(dict(base, tags=[c], kinds=[ev['kind']]))
+    return out
+
+
+def self_filters_nonletter(ev):
+    """filters naming a one-byte tag name that is NOT a letter (constructible with from_parts only): whether they find a
+    retrievable event is outside the property; they must never return an unretrievable one"""
+    base = dict(ids=[], authors=[], kinds=[], tags=[], since=None, until=None, limit=None)
+    out = []
+    for t in ev['tags']:
+        if len(t) >= 2 and len(t[0]) == 1 and not (65 <= t[0][0] <= 90 or 97 <= t[0][0] <= 122):
             c = [t[0], t[1]]
             out.append(dict(base, tags=[c]))
             out.append(dict(base, tags=[c], authors=[ev['pk']]))
@@ -440,10 +470,20 @@ class Runner:
                     for ev in pool:
                         for f in self_filters(ev):
                             fs.append((f, 'm', 1, 0, 0, 'self', ev['id']))
+                        for f in self_filters_nonletter(ev):
+                            fs.append((f, 'm', 1, 0, 0, 'selfx', ev['id']))
                 for _ in range(self.nfilters):
                     f = rand_filter(rng, g.events)
                     scr = rng.choice(['m', 'm', 'm', 'p', 'p', 'r', 'x'])
                     allow, lim, secs = rng.choice([(1, 0, 0), (1, 0, 0), (0, 0, 0), (0, 2, 0), (0, 0, 10), (0, 0, 10 ** 12), (0, U32MAX, 0)])
+                    if not (f['ids'] or f['authors'] or f['tags']) and rng.random() < 0.5:
+                        # the time allowance measured against the clock: windows that start a minute or two hours
+                        # ago and end in the past, now, in the near or far future, or never (margins of minutes, so
+                        # the seconds between generating and running the request do not matter)
+                        f['since'] = now - rng.choice([60, 100, 7200, 7200])
+                        f['until'] = rng.choice([None, U64MAX, now + 600, now + 600, now + 10 ** 6, now - 10, U64MAX - 1])
+                        f['limit'] = rng.choice([None, 1, 5, 1000])
+                        allow, lim, secs = 0, rng.choice([0, 2]), rng.choice([300, 300, 3000])
                     fs.append((f, scr, allow, lim, secs, 'rand', None))
                 if len(fs) > 3 * self.nfilters + 40:
                     fs = rng.sample(fs, 3 * self.nfilters + 40)
@@ -607,6 +647,8 @@ def judge(c, hists, oracles, relevant=None):
                                 bad('oracle', 'find_events: %s' % err, bi)
                             elif out:
                                 c.nontriv(lines[bi][:300])
+                        if why == 'selfx' and 'selffind' in oracles and who not in impl_live and who in out:
+                            bad('oracle', 'event %s is not retrievable but a filter naming its tag %r returns it' % (who.hex()[:8], f['tags']), bi)
                         if why == 'self' and 'selffind' in oracles:
                             if (who in impl_live) != (who in out):
                                 bad('oracle', 'event %s is %sretrievable but a filter built from its own fields %s it' % (
